@@ -26,7 +26,7 @@ DISC_ONLY = {"C01", "C02", "C03", "C05", "C06"}
 PROPS = {
     "C01": dict(statement_status="PROVED in full for the modelled language (new/clone/drop/adopt/unadopt/downgrade/upgrade/store/take, the consuming API, destructor scripts, panics), every history length, graph shape and choice oracle: run_history_from_init (no fault; Inv at every boundary), reachable_alive (everything reachable from held handles is alive, in every configuration), group_inv (orphan test sound under discipline of the traced set only). Precondition as a checked hypothesis: hist_ok = discipline when drop logic starts + act_safe for scripts. 'Original value' (pid = box index) is PidInv (pi_home).", streams=CORE + ["rand_cws"] + API, fields={"kind", "Dset", "strong", "tables"},
                 oracles={"C01"}),
-    "C02": dict(statement_status="PROVED for the access protocol: step_inv/steps_no_fault (the only halt of a disciplined run is the abort of C16: no access to a released box, moved-out table or value), freed_iff (released exactly when unneeded, hence once), drop_dead_inv (inert handles). Destructor at most once: PidInv (dtor log NoDup) for every run. Partial by nature: compiler-level UB (aliasing, hashbrown internals) is outside the model; covered by the harness's shadow-state hook and quarantine allocator only.", streams=CORE + ["bfs_w", "rand_cws", "rand_cwk"] + API, fields={"kind", "Dset", "freed", "live"},
+    "C02": dict(statement_status="PROVED for the access protocol: step_inv/steps_no_fault (the only halt of a disciplined run is the abort of C16: no access to a released box, moved-out table or value), freed_iff (released exactly when unneeded, hence once), drop_dead_inv (inert handles). Destructor at most once: PidInv (dtor log NoDup) for every run. Released allocations are frozen: steps_heap_ext / run_history_heap_ext (a released box is never written again, identities never reused), run_history_freed_mono (released at most once, unconditionally). Partial by nature: compiler-level UB (aliasing, hashbrown internals) is outside the model; covered by the harness's shadow-state hook and quarantine allocator only.", streams=CORE + ["bfs_w", "rand_cws", "rand_cwk"] + API, fields={"kind", "Dset", "freed", "live"},
                 oracles={"C02", "fault"}),
     "C03": dict(statement_status="PROVED: live_has_handle (nothing alive without a handle, every configuration), drop_last_inv (last drop destroys now), group_inv (collected set = whole traced set), run_terminates/exec_op_returns (every call returns, explicit fuel bound), orphan_complete (Inv/OrphanComplete.v: an orphaned set passes the test) when present. REFUTED for Loopback-recorded self handles: C03_loopback_refuted (known finding D3).", streams=CORE + ["rand_cws"] + API, fields={"kind", "Dset", "strong", "tables", "T"},
                 oracles={"C03"}),
@@ -34,20 +34,20 @@ PROPS = {
                 fields={"kind", "freed", "live"}, oracles={"C04"}),
     "C05": dict(statement_status="PROVED in every configuration incl. inside destructors of a group teardown: upgrade_iff_alive, weak_counts_dead, weak_target_allocated; all members dead before any destructor runs (group_inv: group_heap).", streams=["corpus", "bfs_w", "bfs_n", "rand_cw", "rand_cwf", "rand_cws", "rand_cwk", "rand_cwa", "rand_n", "rt_cwa", "rt_cws", "rt_n"],
                 fields={"kind", "res", "obs", "freed", "weak"}, oracles={"C05"}),
-    "C06": dict(statement_status="PROVED: counts_exact / strong_count_exact at call boundaries, ci_strong/ci_weak in every configuration (census over registers, values, frames), adopt/unadopt change no counter (adopt_spec, unadopt_spec). Identity (ptr_eq/as_ptr stability) is trivial in the model (ids) and NOT proved: harness only.", streams=CORE + ["bfs_w", "rand_cws"] + API, fields={"kind", "obs", "strong", "weak", "res"},
+    "C06": dict(statement_status="PROVED: counts_exact / strong_count_exact at call boundaries, ci_strong/ci_weak in every configuration (census over registers, values, frames), adopt/unadopt change no counter (adopt_spec, unadopt_spec). Identity: Inv/AddrInv.v adds addresses that the allocator may reuse (alloc_ok contract as a hypothesis): allocations that have not been released keep pairwise distinct addresses along every run (asteps_addr_inj, run_history_addr_inj), everything a program, script, frame or table can name is such an allocation, so ptr_eq by address = identity by id (ptr_eq_exact, act_ptr_eq_by_address, weak_ptr_eq_exact, weak_strong_ptr_eq_exact; reuse_is_possible shows the hypothesis is needed). The address arithmetic of as_ptr/into_raw/from_raw/is_dangling/Weak::new is translated from rc.rs and proved (gen/RawPtrProofs.v: round trips for every layout, as_ptr injective, sentinel never a payload address).", streams=CORE + ["bfs_w", "rand_cws"] + API, fields={"kind", "obs", "strong", "weak", "res"},
                 oracles={"C06"}),
-    "C07": dict(statement_status="PROVED: noadopt_is_std_exact (Proofs/StdRefine.v): for every adoption-free history over the modelled API, scripts and panics included, the machine and the specification StdRc (Proofs/StdRc.v) yield the same outcomes, destructor sequence and states. StdRc itself is tied to the real std::rc by the three-way differential run. Not modelled: comparison/formatting/hashing, From<T>/From<Box<T>>, Default, Pin (delegations to T).", streams=["corpus", "bfs_n", "rand_n", "rand_np", "rt_n"],
+    "C07": dict(statement_status="PROVED: noadopt_is_std_exact (Proofs/StdRefine.v): for every adoption-free history over the modelled API, scripts and panics included, the machine and the specification StdRc (Proofs/StdRc.v) yield the same outcomes, destructor sequence and states. StdRc itself is tied to the real std::rc by the three-way differential run. Raw-pointer round trips, Weak::new's sentinel and ptr_eq: translated and proved (gen/RawPtrProofs.v). Not modelled: comparison/formatting/hashing, From<T>/From<Box<T>>, Default, Pin (delegations to T; source census + glue run).", streams=["corpus", "bfs_n", "rand_n", "rand_np", "rt_n"],
                 fields={"kind", "res", "Dseq", "Dset", "obs", "strong", "weak", "freed", "live"},
                 oracles={"C05", "C06", "C01", "C02", "fault", "C10"}, noadopt_only=True),
     "C08": dict(statement_status="PROVED: tables_consistent (wf, symmetric, both ends alive, Loopback = self) in every configuration; adopt_spec / unadopt_counts (exact deltas, saturating); release_links_TblInv / purge_dying_TblInv (records of a dying object disappear). The ledger form (records change ONLY by adopt/unadopt or death) is the frame theorem of Inv/TablesFrame.v when present.", streams=CORE + ["rand_cwa", "rand_cwo"], fields={"kind", "tables"}, oracles={"C08"}),
-    "C09": dict(statement_status="PROVED at the atomic-function level and for Rc::drop as a whole: cycle_refs_perm, orphaned_cycle_perm, drop_strong_perm (two table orders and two oracles), drop_cycle_oracle_indep; plus every Inv theorem quantifies over the oracle. WHOLE RUNS (Proofs/Determ.v): for fully recorded, scriptless programs (rec_hist) two executions of the same calls under arbitrary oracles, fuels and table orders return the same results and end in the same heap up to table order, same registers, same destructor runs and released tables up to order (run_history_oracle_independent, run_history_table_order_independent, per call: exec_op_oracle_independent). With destructor scripts the order inside a group is observable by the scripts themselves and no such statement is claimed.", streams=["corpus", "shp4", "shp3", "rand_cwf"], fields={"kind", "Dset", "strong", "weak", "obs"}, oracles=set()),
+    "C09": dict(statement_status="PROVED at the atomic-function level and for Rc::drop as a whole: cycle_refs_perm, orphaned_cycle_perm, drop_strong_perm (two table orders and two oracles), drop_cycle_oracle_indep; plus every Inv theorem quantifies over the oracle. WHOLE RUNS (Proofs/Determ.v): for fully recorded, scriptless programs (rec_hist) two executions of the same calls under arbitrary oracles, fuels and table orders return the same results and end in the same heap up to table order, same registers, same destructor runs and released tables up to order (run_history_oracle_independent, run_history_table_order_independent, per call: exec_op_oracle_independent). With destructor scripts the order inside a group is observable by the scripts themselves and no such statement is claimed. Addresses: table_keys_distinct_addresses / table_key_vs_owner (Inv/AddrInv.v): under any address assignment within the allocator's contract, keys of the tables have equal addresses iff equal ids, so the id-keyed tables of the model are the address-keyed tables of the implementation for every layout.", streams=["corpus", "shp4", "shp3", "rand_cwf"], fields={"kind", "Dset", "strong", "weak", "obs"}, oracles=set()),
     "C10": dict(statement_status="PROVED: act_inv (every action incl. nested collections from destructors preserves Inv under act_safe), steps_inv / steps_no_fault (Inv at every re-entry point). The RefCell protocol is an annotation layer (Proofs/Borrow.v, hand transcription of which table is borrowed where): no_borrow_across_user_code / no_borrow_conflict_in_history (conflict free, balanced; negative controls show the skip test and the explicit drop(links) are what avoid the panic); the harness's unexpected-panic oracle ties it to the code.", streams=["corpus", "rand_cws", "rand_cwsf", "rt_cws"],
                 fields={"kind", "Dset", "strong", "weak", "tables", "freed", "res", "obs", "live"},
                 oracles={"C10", "C01", "C02", "C03", "C05", "C06", "fault"}),
     "C11": dict(statement_status="PROVED: unwind_inv, run_inv with panics at any position, run_unw (the panic propagates), step_double_panic (second panic aborts), exec_op_inv (Inv after a panicked call), freed_iff with n_leak (leaked, never released twice). Rust's unwinding rules for Vec/slice/struct drop glue are modelled, not verified.", streams=["corpus", "rand_cwsp", "rand_np"],
                 fields={"kind", "Dset", "strong", "weak", "freed", "obs"},
                 oracles={"C01", "C02", "C05", "C06", "fault"}),
-    "C12": dict(statement_status="PROVED: try_unwrap_strict, make_mut_strict (all branches; cannot fault or abort), act_get_mut/into_raw/from_raw/inc_strong/dec_strong, release_links_TblInv (peers unlinked), run_history_inv from any Inv state (later histories).", streams=["corpus", "bfs_a", "bfs_n", "rand_cwa", "rand_n", "rt_cwa", "rt_n"],
+    "C12": dict(statement_status="PROVED: try_unwrap_strict, make_mut_strict (all branches; cannot fault or abort), act_get_mut/into_raw/from_raw/inc_strong/dec_strong, release_links_TblInv (peers unlinked), run_history_inv from any Inv state (later histories). The pointer arithmetic of into_raw/from_raw (Rc and Weak) is translated and proved a round trip for every layout and address (gen/RawPtrProofs.v).", streams=["corpus", "bfs_a", "bfs_n", "rand_cwa", "rand_n", "rt_cwa", "rt_n"],
                 fields={"kind", "tables", "res", "Dset", "freed", "live", "strong", "weak", "obs"},
                 oracles={"C08", "C02", "C01", "fault"}),
     "C13": dict(statement_status="Full statement REFUTED: C13_refuted (known finding D4: taken-out handle kept alive). PROVED part: drop_strong_inv/step_inv under traced_disc: stale records are harmless unless a trace visits an object carrying one; a dying adoptee purges stale records.", streams=["corpus", "rand_cwe", "rand_cwea", "rand_cwo", "bfs_c2", "bfs_a"], fields={"kind", "Dset", "strong", "tables"},
